@@ -1007,26 +1007,40 @@ func (x *Exec) eval(fr *frame, ins ssa.Value) Value {
 				x.rangeCount++
 			}
 			if x.mapOrderNondet && len(snap.keys) > 1 && (x.rangeSite < 0 || x.rangeSite == x.rangeCount-1) {
-				// symbolic permutation: pick the next element among the remaining ones
+				// symbolic permutation: pick the next element among the remaining ones (all n! orders for n <= 5);
+				// larger maps: the n rotations and the reversal only (stated in the evidence as a reduced bound)
 				n := len(snap.keys)
 				perm := &MapObj{}
-				used := make([]bool, n)
-				for k := 0; k < n-1; k++ {
-					rem := []int{}
+				if n > 5 {
+					c := x.choose(n+1, func(int) *Term { return Bool(true) })
+					for i := 0; i < n; i++ {
+						j := (i + c) % n
+						if c == n {
+							j = n - 1 - i
+						}
+						perm.keys = append(perm.keys, snap.keys[j])
+						perm.vals = append(perm.vals, snap.vals[j])
+					}
+					x.res.Inconclusive["note: map with more than 5 entries: rotations and reversal explored instead of all orders"] += 0
+				} else {
+					used := make([]bool, n)
+					for k := 0; k < n-1; k++ {
+						rem := []int{}
+						for i := 0; i < n; i++ {
+							if !used[i] {
+								rem = append(rem, i)
+							}
+						}
+						c := x.choose(len(rem), func(int) *Term { return Bool(true) })
+						used[rem[c]] = true
+						perm.keys = append(perm.keys, snap.keys[rem[c]])
+						perm.vals = append(perm.vals, snap.vals[rem[c]])
+					}
 					for i := 0; i < n; i++ {
 						if !used[i] {
-							rem = append(rem, i)
+							perm.keys = append(perm.keys, snap.keys[i])
+							perm.vals = append(perm.vals, snap.vals[i])
 						}
-					}
-					c := x.choose(len(rem), func(int) *Term { return Bool(true) })
-					used[rem[c]] = true
-					perm.keys = append(perm.keys, snap.keys[rem[c]])
-					perm.vals = append(perm.vals, snap.vals[rem[c]])
-				}
-				for i := 0; i < n; i++ {
-					if !used[i] {
-						perm.keys = append(perm.keys, snap.keys[i])
-						perm.vals = append(perm.vals, snap.vals[i])
 					}
 				}
 				snap = perm
